@@ -365,7 +365,31 @@ def c10():
                              'growth/shrink counters are monotone and move exactly with a structural change; clear() zeroes everything and returns every block; insert+remove restores the getters.')
 
 
-REGISTRY = {'C08': c08, 'C10': c10, 'C13': c13, 'C16': c16, 'C02': c02, 'C01': c01, 'C07': c07, 'C11': c11, 'C12': c12, 'C15': c15}
+QPTR_EXT = ['gh_reg_count', 'gh_reg_mult', 'gh_reg_errors', '_ZN5unodb6detail13qsbr_ptr_base19register_active_ptrEPKv', '_ZN5unodb6detail13qsbr_ptr_base21unregister_active_ptrEPKv']
+
+
+def c17():
+    qs = []
+    for cfg, steps, tier in (('base', 2, 'quick'), ('base', 3, 'quick'), ('base', 4, 'thorough'), ('debug', 1, 'quick'), ('debug', 2, 'thorough'), ('debug', 3, 'thorough')):
+        u = U('qptr.cpp', cfg, defines=['STEPS=%d' % steps], extra_glue=['qptr_glue.c'], extern_c=QPTR_EXT)
+        heavy = tier == 'thorough'
+        qs.append(Query('qptr-seq-%s-%d' % (cfg, steps), u, 'h_qptr_seq', unwind=14, tier=tier, replay='native' if cfg == 'base' else 'none', trace=(cfg == 'base' and steps <= 3),
+                        timeout=3400 if heavy else None, mem_gb=40 if heavy else None, weight=4 if heavy else 1,
+                        about='every sequence of %d operations (13 kinds, symbolic choice, operands and offsets) over 3 wrapper slots and 2 buffers; shadow raw pointers; %s' %
+                              (steps, 'all observers after every step' if cfg == 'base' else 'assertion-enabled build: ghost registry == multiset of live non-null wrappers after every step'),
+                        bounds={'steps': steps, 'slots': 3, 'buffers': 2, 'buffer_len': 8}))
+    for cfg in ('base', 'debug'):
+        u = U('qptr.cpp', cfg, defines=['STEPS=1'], extra_glue=['qptr_glue.c'], extern_c=QPTR_EXT)
+        qs.append(Query('qptr-span-' + cfg, u, 'h_qptr_span', unwind=14, replay='native' if cfg == 'base' else 'none',
+                        about='qsbr_ptr_span over every sub-span of an 8-byte buffer: begin/end/size/iteration, copies/moves/assignment', bounds={'buffer_len': 8}))
+    return Check('C17', 'model_checking', qs,
+                 assumptions=['assertion-enabled build: the out-of-line qsbr_ptr_base::register_active_ptr/unregister_active_ptr (qsbr_ptr.cpp, which forwards to the per-thread std::unordered_multiset) are replaced by a ghost '
+                              'multiset; that quiescent()/qsbr_pause()/qsbr_resume() assert exactly the emptiness of that registry is taken from reading qsbr.hpp:1392,1479,1493 and qsbr.cpp:134-148, not decided by the solver',
+                              'self-assignment is excluded (the property speaks of distinct objects); pointers stay inside their buffer or one past the end'],
+                 explanation='Bounded sequences (2-4 steps) of the 13 wrapper operations with symbolic choice at every step, compared with a shadow model after every step.')
+
+
+REGISTRY = {'C17': c17, 'C08': c08, 'C10': c10, 'C13': c13, 'C16': c16, 'C02': c02, 'C01': c01, 'C07': c07, 'C11': c11, 'C12': c12, 'C15': c15}
 
 
 def get(pid):
